@@ -114,6 +114,10 @@ def _code_objects(code):
             yield from _code_objects(c)
 
 
+class LoopBudgetExceeded(Exception):
+    """Raised from the LINE callback into the monitored code: a logical (step-based) loop bound."""
+
+
 class Reach:
     """LINE-event reach counter local to the code objects of the given functions."""
 
@@ -126,6 +130,7 @@ class Reach:
         self.hit = {}
         self.loop_counts = {}
         self.watch = {}
+        self.budget = None
         mon = sys.monitoring
         if mon.get_tool(self.TOOL) is None:
             mon.use_tool_id(self.TOOL, "vf-reach")
@@ -152,7 +157,10 @@ class Reach:
             return sys.monitoring.DISABLE
         self.hit[label].add(line)
         if line in self.watch[label]:
-            self.loop_counts[(label, line)] = self.loop_counts.get((label, line), 0) + 1
+            n = self.loop_counts.get((label, line), 0) + 1
+            self.loop_counts[(label, line)] = n
+            if self.budget is not None and n > self.budget:
+                raise LoopBudgetExceeded(f"{label}: line {line} evaluated {n} times")
             return None
         return sys.monitoring.DISABLE
 
